@@ -206,6 +206,21 @@ func c09Values(ch *characteristic.Characteristic) []c09Val {
 			}
 			if ch.Format == characteristic.FormatInt32 {
 				add("-5", -5)
+				add("-2^31", -2147483648)
+				add("2^31-1", 2147483647)
+			}
+			if ch.Format == characteristic.FormatUInt32 || ch.Format == characteristic.FormatUInt64 {
+				// the upper half of the unsigned 32-bit range
+				add("2^31", 2147483648)
+				add("2^32-1", 4294967295)
+			}
+			if ch.Format == characteristic.FormatUInt64 {
+				add("2^32", 4294967296)
+				add("2^53", 9007199254740992)
+			}
+			if ch.Format == characteristic.FormatUInt16 {
+				add("2^15", 32768)
+				add("2^16-1", 65535)
 			}
 		}
 	case characteristic.FormatString:
@@ -713,6 +728,9 @@ func c09Shapes(c *fw.Ctx) {
 		"[e]": {e(0)}, "[ne]": {ne}, "[e,ne]": {e(0), ne}, "[ne,e]": {ne, e(0)}, "[e,e]": {e(0), e(0)},
 		"[e1,e2,e3]": {e(0), e(1), e(30)}, "[e,ne-iid,e]": {e(3), ne2, e(4)}, "[ne,ne]": {ne, ne2},
 		"[50 ids]": nil,
+		// ids of two accessories alternating / descending: answered in the order asked
+		"[a1,b1,a2,b2]": {e(0), e(30), e(1), e(31)}, "[b1,a1]": {e(30), e(0)}, "[a1,ne,b1,a2]": {e(0), ne, e(30), e(1)},
+		"[b2,b1,a2,a1]": {e(31), e(30), e(1), e(0)},
 	}
 	for i := 0; i < 50; i++ {
 		shapes["[50 ids]"] = append(shapes["[50 ids]"], e(i%len(rd)))
